@@ -15,6 +15,18 @@ CHECKS = {
  "C04": ("exploration", "world", "model-based stateful PBT (Hypothesis): sequential histories over 2-3 objects on one resource and retained nested handles vs one shared plain model",
          "Generated sequential histories that alternate between several collection objects and stale nested handles on one resource; all must behave as one plain structure (outcomes, resource after every mutator, final reads).",
          "spec-detached handles unused; fakes for Redis/MongoDB/Zarr", "3 C04"),
+ "C05": ("exploration", "bufworld", "model-based stateful PBT (Hypothesis): generated programs with well-nested obj.buffered / buffer_backend() contexts vs the unbuffered plain model, plus file stat/bytes invariants",
+         "Generated programs for all 8 buffered classes with any nesting of the two context kinds; outcomes must equal the unbuffered model, the file must stay byte/inode/mtime-identical while buffered and equal the model right after the outermost exit; buffer size 0 at the end.",
+         "default capacity (no forced flush); one object per file; tmpfs stat granularity", "3 C05"),
+ "C06": ("exploration", "bufworld", "model-based PBT (Hypothesis) of scripted multi-object histories: k objects on one file in a common buffered state, generated roles, touch order and exit permutations, vs one plain model",
+         "Generated histories over 2-3 objects bound to one file in one common buffered state (class-wide, per-object with permuted exits, or both), generator steered so that ~30% of cases have a pure reader flushed before a later writer; reads inside the context, the file after the common exit and every object afterwards must equal the model.",
+         "only identical buffered states (mixed states are documented as unsupported); known findings K1/K2 excluded by construction while they reproduce", "3 C06"),
+ "C07": ("exploration", "c07-scenarios", "scenario PBT (Hypothesis; exhaustive product for n<=2 files in thorough): role x outside-change x context-kind vectors with an outside writer, oracle = exact conflict set, file contents, buffer state, second session",
+         "Generated (and for n<=2 exhaustively enumerated) assignments of roles and outside changes to 1-4 buffered files under five context kinds including two ways of forcing a flush; checks the exact exception type and conflict set, that outside content survives, clean files are written, read-only files are never written, and that the buffer/capacity/state afterwards allow a clean second session.",
+         "outside writer always changes (size, mtime_ns); whether a forcing operation that raises applied its own change is left open (the statement does not say)", "3 C07"),
+ "C15": ("exploration", "acctworld", "model-based stateful PBT (Hypothesis): generated context/capacity/operation programs vs a documented-semantics model of buffer size and capacity, checked after every step",
+         "Generated programs over 2-4 files with nested contexts, capacity arguments and set_buffer_capacity incl. capacities below one document; after every step size == model, size <= capacity, size == 0 outside contexts, capacity == model stack, and every file without pending buffered modifications is current on disk.",
+         "type-stable value alphabet; under an overflow the model admits 'all flushed' or 'only the accessed file re-entered' (operations load a varying number of times) and adopts the observed one", "3 C15"),
 }
 
 def main():
@@ -45,7 +57,10 @@ def main():
             "add_only": True,
         },
         "engines": [
-            {"name": "world", "path": "vf/world.py", "serves_properties": sorted(CHECKS), "kind_free_text": "interpreter of generated step lists against the library and a plain dict/list model (Hypothesis-driven), with replay and minimisation"},
+            {"name": "bufworld", "path": "vf/bufworld.py", "serves_properties": ["C05", "C06"], "kind_free_text": "world + buffered-context steps and file-frozen invariants"},
+            {"name": "acctworld", "path": "vf/acctworld.py", "serves_properties": ["C15"], "kind_free_text": "bufworld + buffer size/capacity model"},
+            {"name": "c07-scenarios", "path": "vf/props/c07.py", "serves_properties": ["C07"], "kind_free_text": "scenario generator/enumerator with an outside writer"},
+            {"name": "world", "path": "vf/world.py", "serves_properties": ["C01", "C02", "C03", "C04"], "kind_free_text": "interpreter of generated step lists against the library and a plain dict/list model (Hypothesis-driven), with replay and minimisation"},
         ],
         "checks": checks,
         "not_applicable": na,
